@@ -32,7 +32,13 @@ import (
 //	ok           field list, all rows, end-of-results
 //	eofAfter k   field list, k rows, then closes its send side (EOF without end-of-results)
 //	resetAfter k field list, k rows, then drops the connection
-//	errorAfter k field list, k rows, then an end-of-results message carrying an error text
+//	errorAfter k field list, k rows, then ONE final message with both Error set and EndOfResults =
+//	             true — exactly what the real follower (rpc/rpc_client.go ProcessRemoteQuery) sends
+//	             when its query fails after the field list: `&RemoteQueryResult{Stats: stats,
+//	             EndOfResults: true, Error: queryErr.Error()}` with stats = nil (a failed local
+//	             query returns no statistics)
+//	errorEarly k the error text in a message of its own kind: on the message that carries row k
+//	             (k < rows), the remaining rows and a CLEAN end-of-results message follow
 //	silentAfter k field list, k rows, then nothing (beyond ClusterQueryTimeout)
 //
 // Several handlers are queued per partition, in a known order.  The leader is fresh for every
@@ -150,16 +156,20 @@ func remoteFollower(addr string, p int, at remoteAttempt, rows []Row, db *regDB,
 			return
 		}
 		n := len(rows)
-		if at.Kind != "ok" && at.K < n {
+		if at.Kind != "ok" && at.Kind != "errorEarly" && at.K < n {
 			n = at.K
 		}
 		for i := 0; i < n; i++ {
-			if stream.SendMsg(&rpc.RemoteQueryResult{Row: remoteRealRow(rows[i])}) != nil {
+			m := &rpc.RemoteQueryResult{Row: remoteRealRow(rows[i])}
+			if at.Kind == "errorEarly" && i == at.K {
+				m.Error = errHandler.Error()
+			}
+			if stream.SendMsg(m) != nil {
 				return
 			}
 		}
 		switch at.Kind {
-		case "ok":
+		case "ok", "errorEarly":
 			stream.SendMsg(&rpc.RemoteQueryResult{EndOfResults: true})
 			// wait for the leader to end the stream
 			stream.RecvMsg(&rpc.Query{})
@@ -167,7 +177,7 @@ func remoteFollower(addr string, p int, at remoteAttempt, rows []Row, db *regDB,
 			stream.CloseSend()
 			stream.RecvMsg(&rpc.Query{})
 		case "errorAfter":
-			stream.SendMsg(&rpc.RemoteQueryResult{Error: errHandler.Error(), EndOfResults: true})
+			stream.SendMsg(&rpc.RemoteQueryResult{Stats: nil, EndOfResults: true, Error: errHandler.Error()})
 			stream.RecvMsg(&rpc.Query{})
 		case "resetAfter":
 			time.Sleep(30 * time.Millisecond) // let the rows reach the leader first
@@ -290,7 +300,11 @@ func modelAttempt(at remoteAttempt) map[string]interface{} {
 	case "eofAfter", "resetAfter":
 		return map[string]interface{}{"kind": "eofAfter", "k": at.K}
 	case "errorAfter":
-		return map[string]interface{}{"kind": "failAfter", "k": at.K}
+		// the end-of-results message arrives, carrying the error
+		return map[string]interface{}{"kind": "endErrorAfter", "k": at.K}
+	case "errorEarly":
+		// every row arrives, the handler returns the error
+		return map[string]interface{}{"kind": "failAfter", "k": 1 << 20}
 	case "silentAfter":
 		return map[string]interface{}{"kind": "silentAfter", "k": at.K}
 	}
@@ -320,7 +334,14 @@ func genRemote(r *hk.Rng) *Case {
 		case 3:
 			ats = append(ats, remoteAttempt{Kind: "resetAfter", K: r.Intn(n + 1)})
 		case 4:
+			// the follower's query fails after k rows: error ON the end-of-results message
 			ats = append(ats, remoteAttempt{Kind: "errorAfter", K: r.Intn(n + 1)})
+		case 6:
+			if r.Bool() {
+				ats = append(ats, remoteAttempt{Kind: "errorAfter", K: n}) // all rows arrived, then the failing end
+			} else {
+				ats = append(ats, remoteAttempt{Kind: "errorEarly", K: r.Intn(n)})
+			}
 		case 5:
 			if p == 0 {
 				ats = append(ats, remoteAttempt{Kind: "silentAfter", K: r.Intn(n + 1)})
